@@ -65,7 +65,7 @@ sim::Json GenOpts::to_json() const {
     j["allow_msw"] = allow_msw; j["allow_history"] = allow_history; j["allow_groups"] = allow_groups;
     j["restart_safe_conditions"] = restart_safe_conditions; j["nonmidnight"] = nonmidnight; j["step_events"] = step_events;
     j["action_inline_safe"] = action_inline_safe; j["vector_target"] = vector_target; j["units"] = units;
-    j["fmtout"] = fmtout; j["unifout"] = unifout; j["esmry"] = esmry; j["rptonly"] = rptonly; j["sumthin"] = sumthin;
+    j["fmtout"] = fmtout; j["unifout"] = unifout; j["esmry"] = esmry; j["rptonly"] = rptonly; j["sumthin"] = sumthin; j["date_conditions"] = date_conditions; j["nested_parens"] = nested_parens; j["stop_safe"] = stop_safe; j["weltarg_safe"] = weltarg_safe;
     return j;
 }
 GenOpts GenOpts::from_json(const Json& j) {
@@ -77,7 +77,7 @@ GenOpts GenOpts::from_json(const Json& j) {
     o.step_events = j.getb("step_events", o.step_events); o.action_inline_safe = j.getb("action_inline_safe", o.action_inline_safe);
     o.vector_target = static_cast<int>(j.geti("vector_target", 0)); o.units = j.gets("units", "");
     o.fmtout = static_cast<int>(j.geti("fmtout", -1)); o.unifout = static_cast<int>(j.geti("unifout", -1)); o.esmry = j.getb("esmry", false);
-    o.rptonly = j.getb("rptonly", false); o.sumthin = j.getb("sumthin", false);
+    o.rptonly = j.getb("rptonly", false); o.sumthin = j.getb("sumthin", false); o.date_conditions = j.getb("date_conditions", o.date_conditions); o.nested_parens = j.getb("nested_parens", o.nested_parens); o.stop_safe = j.getb("stop_safe", o.stop_safe); o.weltarg_safe = j.getb("weltarg_safe", false);   // absent in replay files written before the knob existed
     return o;
 }
 
@@ -116,6 +116,14 @@ struct Gen {
                 std::vector<std::string> r = {q(w.name), q(status), q(c), "1*", "1*", "1*", "1*", "1*", num(bhp_lim(false))};
                 if (c == "ORAT") r[3] = num(rate()); else if (c == "WRAT") r[4] = num(rate()); else if (c == "GRAT") r[5] = num(rate() * 100); else if (c == "LRAT") r[6] = num(rate());
                 if (rng.chance(0.3) && c != "ORAT") r[3] = num(rate() * 3);
+                if (o.weltarg_safe) {
+                    // known finding (DESIGN 8): WELTARG on a target that WCONPROD left defaulted is taken in METRIC units whatever the deck's
+                    // unit system; give every rate target a value so that WELTARG/WTMULT in later blocks and actions never meets a defaulted one
+                    if (r[3] == "1*") r[3] = num(rate() * 4);
+                    if (r[4] == "1*") r[4] = num(rate() * 4);
+                    if (r[5] == "1*") r[5] = num(rate() * 400);
+                    if (r[6] == "1*") r[6] = num(rate() * 6);
+                }
                 k.recs.push_back(r);
             }
         } else {
@@ -158,7 +166,8 @@ struct Gen {
             std::string un = m.udq_names[rng.below(m.udq_names.size())];
             if (un[0] == 'F') { c.lhs = un; c.rhs = num(std::round(rng.real(1, 2000))); }
             else { c.lhs = un; c.lhs_args = {rng.chance(0.5) ? std::string("P*") : m.wells[rng.below(m.wells.size())].name}; c.rhs = num(std::round(rng.real(1, 2000))); }
-        } else if (u < 0.90) { c.lhs = "DAY"; c.rhs = num(static_cast<double>(rng.range(1, 28))); }
+        } else if (restart_safe && !o.date_conditions) { c.lhs = rng.pick(fieldq); c.rhs = thresh(c.lhs); }
+        else if (u < 0.90) { c.lhs = "DAY"; c.rhs = num(static_cast<double>(rng.range(1, 28))); }
         else if (u < 0.96) { c.lhs = "MNTH"; c.rhs = rng.chance(0.5) ? month_name(static_cast<int>(rng.range(1, 12))) : num(static_cast<double>(rng.range(1, 12))); }
         else { c.lhs = "YEAR"; c.rhs = num(static_cast<double>(m.sy + rng.range(0, 1))); }
         if (c.lhs == "MNTH" && (c.op == "=" || c.op == "!=") && rng.chance(0.5)) c.op = ">=";
@@ -175,7 +184,8 @@ struct Gen {
             int np = static_cast<int>(rng.below(3));
             for (int p = 0; p < np; ++p) {
                 int a = static_cast<int>(rng.range(0, n - 2)), b = static_cast<int>(rng.range(a + 1, n - 1));
-                if (cs[static_cast<size_t>(a)].open_paren < 2 && cs[static_cast<size_t>(b)].close_paren < 2) { ++cs[static_cast<size_t>(a)].open_paren; ++cs[static_cast<size_t>(b)].close_paren; }
+                const int lim = o.nested_parens ? 2 : 1;
+                if (cs[static_cast<size_t>(a)].open_paren < lim && cs[static_cast<size_t>(b)].close_paren < lim) { ++cs[static_cast<size_t>(a)].open_paren; ++cs[static_cast<size_t>(b)].close_paren; }
             }
         }
         return cs;
@@ -236,7 +246,7 @@ struct Gen {
         m.unifout = o.unifout < 0 ? rng.chance(0.7) : o.unifout != 0;
         rate_scale = m.units == "FIELD" ? 6.0 : m.units == "LAB" ? 40.0 : 1.0;      // only so that numbers look plausible per system
         pres_scale = m.units == "FIELD" ? 14.5 : 1.0;
-        m.nx = static_cast<int>(rng.range(2, 5)); m.ny = static_cast<int>(rng.range(2, 5)); m.nz = static_cast<int>(rng.range(1, 4));
+        m.nx = static_cast<int>(rng.range(2, 5)); m.ny = static_cast<int>(rng.range(2, 5)); m.nz = static_cast<int>(rng.range(o.stop_safe ? 2 : 1, 4));
         double L = m.units == "FIELD" ? 300 : m.units == "LAB" ? 5000 : 100;
         for (int k = 0; k < m.nx * m.ny * m.nz; ++k) { m.dx.push_back(std::round(rng.real(0.5, 1.5) * L)); m.dy.push_back(std::round(rng.real(0.5, 1.5) * L)); m.dz.push_back(std::round(rng.real(0.05, 0.2) * L)); }
         m.tops = std::round(20 * L);
@@ -273,6 +283,7 @@ struct Gen {
             wd.group = leaves[rng.below(leaves.size())];
             wd.i = cols[static_cast<size_t>(w)] % m.nx + 1; wd.j = cols[static_cast<size_t>(w)] / m.nx + 1;
             wd.k1 = static_cast<int>(rng.range(1, m.nz)); wd.k2 = static_cast<int>(rng.range(wd.k1, m.nz));
+            if (o.stop_safe) { wd.k1 = static_cast<int>(rng.range(1, m.nz - 1)); wd.k2 = static_cast<int>(rng.range(wd.k1 + 1, m.nz)); }
             wd.history = o.allow_history && rng.chance(0.3);
             wd.msw = o.allow_msw && wd.kind == "OPROD" && rng.chance(0.2);
             double s = rng.unit(); wd.status0 = s < 0.8 ? "OPEN" : s < 0.9 ? "SHUT" : "STOP";
